@@ -118,6 +118,17 @@ def setAt : List Bool → Nat → List Bool
   | _ :: bs, 0 => true :: bs
   | b :: bs, k + 1 => b :: setAt bs k
 
+/-- the x-pass closure of `accumulate_sparse_deltas`:
+`if let Some((delta, flag)) = deltas.get_mut(ix).zip(flags.get_mut(ix)) { delta.x += …; flag.set_marker(HAS_DELTA) }` -/
+def xStep (scalar : Int) (st : List Pt × List Bool) (c : Nat × Int) : List Pt × List Bool :=
+  if c.1 < st.1.length ∧ c.1 < st.2.length then
+    (addAt st.1 c.1 (fun p => (Iup.fxAdd p.1 (fxScaled scalar c.2), p.2)), setAt st.2 c.1)
+  else st
+
+/-- the y-pass closure: `if let Some(delta) = deltas.get_mut(ix) { delta.y += … }` -/
+def yStep (scalar : Int) (b : List Pt) (c : Nat × Int) : List Pt :=
+  if c.1 < b.length then addAt b c.1 (fun p => (p.1, Iup.fxAdd p.2 (fxScaled scalar c.2))) else b
+
 /-- `TupleVariation::accumulate_sparse_deltas(deltas, flags, scalar)` with `D = Fixed`, given the
 point-number data and the packed delta data of `point_numbers_and_packed_deltas` -/
 def accSparse (ptBytes dBytes : List Nat) (scalar : Int) (buf : List Pt) (flags : List Bool) :
@@ -129,14 +140,8 @@ def accSparse (ptBytes dBytes : List Nat) (scalar : Int) (buf : List Pt) (flags 
     match readSparse (count + 1) 0 count (ptIterOf ptBytes) bs with
     | none => none
     | some (ycalls, _) =>
-      -- `deltas.get_mut(ix).zip(flags.get_mut(ix))`: both must be in range for the x pass
-      let st := xcalls.foldl (fun (st : List Pt × List Bool) (c : Nat × Int) =>
-        if c.1 < st.1.length ∧ c.1 < st.2.length then
-          (addAt st.1 c.1 (fun p => (Iup.fxAdd p.1 (fxScaled scalar c.2), p.2)), setAt st.2 c.1)
-        else st) (buf, flags)
-      let buf' := ycalls.foldl (fun (b : List Pt) (c : Nat × Int) =>
-        if c.1 < b.length then addAt b c.1 (fun p => (p.1, Iup.fxAdd p.2 (fxScaled scalar c.2))) else b) st.1
-      some (buf', st.2)
+      let st := xcalls.foldl (xStep scalar) (buf, flags)
+      some (ycalls.foldl (yStep scalar) st.1, st.2)
 
 /-- `TupleVariation::accumulate_dense_deltas(deltas, scalar)` -/
 def accDense (dBytes : List Nat) (scalar : Int) (deltas : List Pt) : Option (List Pt) :=
